@@ -1,6 +1,7 @@
 pub mod c02;
 pub mod c03;
 pub mod c04;
+pub mod c06u;
 pub mod c07;
 pub mod c10;
 pub mod c13;
@@ -40,7 +41,11 @@ pub fn plan(prop: &str, tier: Tier, seed: u64) -> Option<Plan> {
     "C17" => Some(c17::plan(tier, seed)),
     "C01" => Some(life::plan("C01", tier, seed)),
     "C05" => Some(life::plan("C05", tier, seed)),
-    "C06" => Some(life::plan("C06", tier, seed)),
+    "C06" => {
+      let mut p = life::plan("C06", tier, seed);
+      p.harnesses.extend(c06u::harnesses());
+      Some(p)
+    }
     _ => None,
   }
 }
@@ -64,6 +69,7 @@ pub fn by_name(name: &str) -> Option<Arc<dyn Harness>> {
     "C13" => c13::by_name(name),
     "C10" => c10::by_name(name),
     "C17" => c17::by_name(name),
+    "C06" if name.starts_with("C06/unbounded/") => c06u::by_name(name),
     "C01" | "C05" | "C06" => life::by_name(name),
     _ => None,
   }
